@@ -2,6 +2,8 @@
  *
  * Op file (tokens separated by single spaces; class tokens: `b.<Symbol>` = a type object of the library or of this file,
  * resolved with dlsym; `r.<k>` = run-time class k created by `C`):
+ *   (a third kind of class token: `t.<tid>` = the live run-time TYPE object tid used as a class — any type object can be a class;
+ *    its name is read when the lookup runs, its address is what Type_Scan memoises; W renames it, X deletes it)
  *   G <i>:<Class> ...                  the Type_Cache_Entry table as read from the SOURCE TEXT (used by the invariant check)
  *   C <k> <name>                       create run-time class k:  new_raw(Type, $S(name), $I(0))
  *   B <tid> <Symbol> <Class>:<flags>…  bind tid to a library type object; the row is the declaration from the SOURCE TEXT
@@ -12,6 +14,8 @@
  *                                      alloc alloc_raw(Type) then construct_with(T, …)
  *                                      junk  construct_with on caller-provided storage whose every word holds junk
  *                                            (cache words: a decoy instance; all cells: decoy triples with live-looking names)
+ *                                      arena the same on a slot of a harness-owned arena (lowest free slot): X releases the slot, the
+ *                                            next `N … arena` lands on the SAME ADDRESS (deterministic address reuse)
  *   W <tid> <name> <size> <cls>:<flags>…   re-construct the live run-time type IN PLACE: destruct(T); construct_with(T, …)
  *   X <tid>                            delete the run-time type (del_raw / del_root / del according to how it was made)
  *   Y <tid> copy|assign                copy(T) / assign(T, T): Type objects refuse both with ValueError and stay as they are
@@ -21,6 +25,8 @@
  *   J <tid> <cls>                      instance(<the type object tid itself>, cls): a lookup in Type's record through type_of
  *   K <tid> <tid2>                     cast(object of type tid, type tid2)
  *   E null|dead|bad|nontype <tid> <cls>    lookups with a NULL / freed / foreign / non-type `self`
+ *   E nullcls <tid> <cls>              type_instance(T, NULL) / type_implements(T, NULL) (the class token is ignored); executed only when
+ *                                      the record has an un-memoised triple or no triple at all (otherwise the code reads through NULL: `ub`)
  *   H <tid> <nthreads> <rounds> <cls>… threads doing first lookups on cold caches, repeatedly
  *   D <tid>                            dump
  * Observations: results as `#<index of the triple whose inst was returned>` | NULL | exception name; for S/T types followed by the
@@ -31,7 +37,12 @@
  * probe member, the cache/memo invariant after every op.  The declared row kept per type is the declaration CURRENTLY in
  * force: W replaces it (a refused W keeps it), so every lookup is compared with the instance list of the last successful
  * construction; after every successful construction all cache words and memoised class pointers must be NULL and the
- * __Name/__Size cells must hold the arguments; a refused construction must leave every word of the storage as it was. */
+ * __Name/__Size cells must hold the arguments; a refused construction must leave every word of the storage as it was.
+ * The declaration of a run-time type is kept BY NAME as Type_New stored it (the class names at construction time); a lookup is
+ * compared with "first triple whose name is the CURRENT name of the class object".  Known finding KF-C08-class-memo-stale: when
+ * a triple's memoised class pointer equals the class argument although the triple's name is not the class's current name (the
+ * class object was re-constructed under another name, or deleted and another type object now lives at its address), a
+ * disagreement is reported under that signature. */
 #include "common.h"
 #include <dlfcn.h>
 #include <pthread.h>
@@ -100,6 +111,8 @@ typedef struct {
   int how;              /* run-time types: 0 new_raw_with, 1 new_root_with, 2 new_with, 3 alloc_raw + construct_with, 4 junk storage */
   long tsize;           /* run-time types: the size argument */
   int gcslot;           /* mode gc: index of the stack slot that keeps the type reachable for the collector */
+  char** rcname;        /* run-time types: the class NAME of every triple as it was when the type was constructed */
+  int aslot;            /* mode arena: the slot */
 } TH;
 static TH th[MAXT];
 
@@ -113,8 +126,21 @@ static var resolve_sym(const char* s) {
 static var resolve_cls(const char* tok) {
   if (tok[0] == 'b' && tok[1] == '.') return resolve_sym(tok + 2);
   if (tok[0] == 'r' && tok[1] == '.') { int k = atoi(tok + 2); if (k >= 0 && k < MAXC) return rcls[k].cls; }
+  if (tok[0] == 't' && tok[1] == '.') { int k = atoi(tok + 2); if (k >= 0 && k < MAXT && th[k].kind == 3) return th[k].type; }
   return NULL;
 }
+
+/* ---- class objects that changed under the feet of memoised pointers ---- */
+enum { MAXEV = 4096 };
+static var dead_addr[MAXEV]; static int ndead = 0;         /* deleted type objects whose address holds no live type object now */
+static var changed_addr[MAXEV]; static int nchanged = 0;   /* addresses whose __Name was rewritten (re-construction under another name, address reuse) */
+static int tid_hi = 0;                                      /* 1 + the highest type number used so far */
+static int live_tid(var c) { for (int k = 0; k < tid_hi; k++) if (th[k].kind == 3 && th[k].type == c) return k; return -1; }
+static int is_dead(var c) { if (live_tid(c) >= 0) return 0; for (int i = 0; i < ndead; i++) if (dead_addr[i] == c) return 1; return 0; }
+static int is_changed(var c) { for (int i = 0; i < nchanged; i++) if (changed_addr[i] == c) return 1; return 0; }
+static void mark_dead(var c) { if (ndead < MAXEV) dead_addr[ndead++] = c; }
+static void mark_changed(var c) { if (!is_changed(c) && nchanged < MAXEV) changed_addr[nchanged++] = c; }
+static void mark_alive(var c) { for (int i = 0; i < ndead; i++) if (dead_addr[i] == c) { dead_addr[i] = dead_addr[--ndead]; mark_changed(c); i--; } }
 
 /* ---- raw access to a type record (independent of Type.c's lookup functions) ---- */
 static struct Type* raw_first(var T) { return (struct Type*)T + RAW_FIRST; }
@@ -127,6 +153,8 @@ static int row_first(TH* h, const char* cn) { for (int i = 0; i < h->n; i++) if 
 
 static const char* cls_token(var c, char* buf, size_t n) {
   for (int k = 0; k < MAXC; k++) if (rcls[k].cls == c) { snprintf(buf, n, "r.%d", k); return buf; }
+  int lt = live_tid(c); if (lt >= 0) { snprintf(buf, n, "t.%d", lt); return buf; }
+  if (is_dead(c)) { snprintf(buf, n, "dead"); return buf; }
   snprintf(buf, n, "b.%s", raw_name(c)); return buf;
 }
 
@@ -167,7 +195,11 @@ static void check_inv(TH* h, size_t line) {
   }
   for (struct Type* t = raw_first(T); t->name; t++) {
     if (!t->cls) continue;
-    if (strcmp(raw_name(t->cls), (const char*)t->name) != 0) X("sig=disp-memo-inv line=%zu what=triple %s of %s memoises class %s", line, (char*)t->name, raw_name(T), raw_name(t->cls));
+    if (is_dead(t->cls)) continue;                       /* dangling: never dereferenced (neither here nor by Type_Scan) */
+    if (strcmp(raw_name(t->cls), (const char*)t->name) != 0) {
+      if (is_changed(t->cls)) continue;                  /* the state of KF-C08-class-memo-stale; reported where a lookup goes wrong */
+      X("sig=disp-memo-inv line=%zu what=triple %s of %s memoises class %s", line, (char*)t->name, raw_name(T), raw_name(t->cls));
+    }
     else if (raw_scan_name(T, (const char*)t->name) != t->inst) X("sig=disp-memo-inv line=%zu what=a later duplicate triple %s of %s carries a memoised class", line, (char*)t->name, raw_name(T));
   }
 }
@@ -197,6 +229,23 @@ static var junk_storage(void) {
   for (int j = RAW_CACHE_WORDS / 3; j < RAW_CELLS; j++) {
     w[3*j] = (j % 2) ? resolve_sym(junk_names[j % 12]) : NULL; w[3*j+1] = (var)junk_names[j % 12]; w[3*j+2] = decoy_inst();
   }
+  return self;
+}
+/* a harness-owned arena: slots of exactly the size Type_Alloc reserves; a released slot is handed out again first */
+enum { NSLOT = 8 };
+static struct { struct Header h; struct Type cells[RAW_CELLS]; } arena[NSLOT];
+static int arena_used[NSLOT];
+static void junk_fill(var self) {
+  var* w = self;
+  for (int i = 0; i < RAW_CACHE_WORDS; i++) w[i] = decoy_inst();
+  for (int j = RAW_CACHE_WORDS / 3; j < RAW_CELLS; j++) {
+    w[3*j] = (j % 2) ? resolve_sym(junk_names[j % 12]) : NULL; w[3*j+1] = (var)junk_names[j % 12]; w[3*j+2] = decoy_inst();
+  }
+}
+static int arena_free_slot(void) { for (int i = 0; i < NSLOT; i++) if (!arena_used[i]) return i; return -1; }
+static var arena_storage(int slot) {
+  var self = header_init(&arena[slot].h, Type, AllocStatic);
+  junk_fill(self);
   return self;
 }
 static int raw_tail_nonnull(var T) {
@@ -235,10 +284,14 @@ static int split(char* l, char** tok, int max) {
   return n;
 }
 
+/* the name string of a type object is BORROWED by every triple that lists it as a class (Type_New stores c_str(type_of(ins))):
+   name strings are never freed, they are parked here */
+static char** parked = NULL; static size_t nparked = 0;
+static void park(char* p) { if (!p) return; parked = realloc(parked, (nparked + 1) * sizeof(char*)); parked[nparked++] = p; }
 static void free_type(TH* h) {
   /* run-time types: the type object and its instance cells are kept (a type abandoned by `T`/`N` on a live tid stays a valid object) */
-  for (int i = 0; i < h->n; i++) { free(h->rname[i]); free(h->rflags[i]); }
-  free(h->rname); free(h->rflags); free(h->obj); free(h->tname);
+  for (int i = 0; i < h->n; i++) { free(h->rname[i]); free(h->rflags[i]); if (h->rcname) free(h->rcname[i]); }
+  free(h->rname); free(h->rflags); free(h->rcname); free(h->obj); park(h->tname);
   memset(h, 0, sizeof *h);
 }
 
@@ -265,7 +318,7 @@ static int record_matches(TH* h, size_t line, int classnames_are_tokens) {
   int i = 0;
   for (struct Type* t = raw_first(T); t->name; t++, i++) {
     const char* want = h->rname[i];
-    if (classnames_are_tokens) { var c = resolve_cls(want); want = c ? raw_name(c) : "?"; }
+    if (classnames_are_tokens) { if (h->rcname) want = h->rcname[i]; else { var c = resolve_cls(want); want = c ? raw_name(c) : "?"; } }
     if (strcmp((const char*)t->name, want) != 0) { X("sig=disp-record line=%zu what=triple %d of %s is named %s, declaration says %s", line, i, raw_name(T), (char*)t->name, want); ok = 0; continue; }
     if (!t->inst) { X("sig=disp-record line=%zu what=triple %d of %s has a NULL instance", line, i, raw_name(T)); ok = 0; continue; }
     for (size_t k = 0; k < strlen(h->rflags[i]); k++) {
@@ -281,7 +334,9 @@ static int record_matches(TH* h, size_t line, int classnames_are_tokens) {
 static var construct_type(int how, var T, TH* h, Cell* cells, const char* name, long size, var* excp) {
   var* items = calloc(h->n + 3, sizeof(var));
   items[0] = $S((char*)name); items[1] = $I(size);
+  h->rcname = calloc(h->n + 1, sizeof(char*));
   for (int i = 0; i < h->n; i++) {
+    h->rcname[i] = strdup(raw_name(resolve_cls(h->rname[i])));        /* the name Type_New stores: c_str(type_of(ins)) now */
     var ins = header_init(&cells[i].h, resolve_cls(h->rname[i]), AllocStatic);
     for (size_t k = 0; k < strlen(h->rflags[i]); k++) cells[i].m[k] = h->rflags[i][k] == '1' ? (var)probe_member : NULL;
     items[2 + i] = ins;
@@ -294,6 +349,7 @@ static var construct_type(int how, var T, TH* h, Cell* cells, const char* name, 
   case 2: V_TRY(exc, R = new_with(Type, args)); break;
   case 3: R = alloc_raw(Type); V_TRY(exc, construct_with(R, args)); if (exc) { dealloc_raw(R); R = NULL; } break;
   case 4: R = junk_storage(); V_TRY(exc, construct_with(R, args)); if (exc) { free((char*)R - sizeof(struct Header)); R = NULL; } break;
+  case 6: R = arena_storage(h->aslot); V_TRY(exc, construct_with(R, args)); if (exc) R = NULL; break;
   default: V_TRY(exc, { destruct(R); construct_with(R, args); }); break;
   }
   free(items);
@@ -309,7 +365,10 @@ static void fmt_res(char* buf, size_t n, var T, var exc, var got) {
 
 static int row_first_for(TH* h, var cls) {
   if (h->kind != 3) return row_first(h, raw_name(cls));
-  for (int i = 0; i < h->n; i++) { var c = resolve_cls(h->rname[i]); if (c && strcmp(raw_name(c), raw_name(cls)) == 0) return i; }
+  for (int i = 0; i < h->n; i++) {
+    if (h->rcname) { if (strcmp(h->rcname[i], raw_name(cls)) == 0) return i; }
+    else { var c = resolve_cls(h->rname[i]); if (c && strcmp(raw_name(c), raw_name(cls)) == 0) return i; }
+  }
   return -1;
 }
 static int row_member(TH* h, int i, int k) { return (i >= 0 && k >= 0 && (size_t)k < strlen(h->rflags[i])) ? h->rflags[i][k] == '1' : 0; }
@@ -379,7 +438,8 @@ int main(int argc, char** argv) {
       var T = resolve_sym(tok[2]); if (!T) { O("bad-op"); break; }
       TH nh; memset(&nh, 0, sizeof nh);
       if (!parse_row(&nh, tok + 3, nt - 3)) { free_type(&nh); O("bad-op"); break; }
-      TH* h = &th[tid]; free_type(h); *h = nh;
+      TH* h = &th[tid]; if (h->kind == 3) { var old = h->type; h->kind = 0; mark_dead(old); }
+      free_type(h); *h = nh; if (tid >= tid_hi) tid_hi = tid + 1;
       h->kind = op[0] == 'B' ? 1 : 2; h->type = T; make_obj(h);
       int ok = record_matches(h, line, 0);
       if (strcmp(raw_name(T), tok[2]) != 0) { X("sig=disp-record line=%zu what=type object %s is named %s", line, tok[2], raw_name(T)); ok = 0; }
@@ -392,14 +452,17 @@ int main(int argc, char** argv) {
       int tid = atoi(tok[1]); if (tid < 0 || tid >= MAXT) { O("bad-op"); break; }
       TH nh; memset(&nh, 0, sizeof nh);
       if (!parse_row(&nh, tok + 3, nt - 3)) { free_type(&nh); O("bad-op"); break; }
-      int bad = 0; for (int i = 0; i < nh.n; i++) if (!resolve_cls(nh.rname[i])) bad = 1;
+      int bad = 0; for (int i = 0; i < nh.n; i++) if (!resolve_cls(nh.rname[i]) || (th[tid].kind == 3 && resolve_cls(nh.rname[i]) == th[tid].type)) bad = 1;
       if (bad) { free_type(&nh); O("bad-op"); break; }
-      TH* h = &th[tid]; free_type(h); *h = nh;
-      h->kind = 3; h->tname = strdup(tok[2]);
+      TH* h = &th[tid]; if (h->kind == 3) { var old = h->type; h->kind = 0; mark_dead(old); }   /* abandoned: as good as deleted */
+      free_type(h); *h = nh; if (tid >= tid_hi) tid_hi = tid + 1;
+      h->tname = strdup(tok[2]);
       h->cells = calloc(h->n + 1, sizeof(Cell));
       var* items = calloc(h->n + 3, sizeof(var));
       items[0] = $S(h->tname); items[1] = $I(0);
+      h->rcname = calloc(h->n + 1, sizeof(char*));
       for (int i = 0; i < h->n; i++) {
+        h->rcname[i] = strdup(raw_name(resolve_cls(h->rname[i])));
         var ins = header_init(&h->cells[i].h, resolve_cls(h->rname[i]), AllocStatic);
         for (size_t k = 0; k < strlen(h->rflags[i]); k++) h->cells[i].m[k] = h->rflags[i][k] == '1' ? (var)probe_member : NULL;
         items[2 + i] = ins;
@@ -410,10 +473,10 @@ int main(int argc, char** argv) {
       free(items);
       if (exc) {
         if (exc != OutOfMemoryError || h->n <= 256) X("sig=disp-typenew line=%zu what=creating a type with %d instances raised %s", line, h->n, v_exc_name(exc));
-        O("T %d n=%d %s", tid, h->n, v_exc_name(exc)); free(h->cells); free_type(h); break;
+        O("T %d n=%d %s", tid, h->n, v_exc_name(exc)); free(h->cells); h->kind = 0; free_type(h); break;
       }
       if (h->n > 256) X("sig=disp-typenew line=%zu what=a type with %d instances (> CELLO_MAX_INSTANCES) was created", line, h->n);
-      h->type = T; h->how = 0; h->tsize = 0; make_obj(h);
+      h->kind = 3; h->type = T; h->how = 0; h->tsize = 0; make_obj(h); mark_alive(T);
       int ok = record_matches(h, line, 1);
       if (strcmp(raw_name(T), h->tname) != 0) { X("sig=disp-record line=%zu what=run-time type is named %s, wanted %s", line, raw_name(T), h->tname); ok = 0; }
       if (!check_fresh(h, T, h->tname, 0, line)) ok = 0;
@@ -428,22 +491,25 @@ int main(int argc, char** argv) {
       int how = 5;
       if (isN) {
         const char* m = tok[2];
-        how = !strcmp(m, "raw") ? 0 : !strcmp(m, "root") ? 1 : !strcmp(m, "gc") ? 2 : !strcmp(m, "alloc") ? 3 : !strcmp(m, "junk") ? 4 : -1;
+        how = !strcmp(m, "raw") ? 0 : !strcmp(m, "root") ? 1 : !strcmp(m, "gc") ? 2 : !strcmp(m, "alloc") ? 3 : !strcmp(m, "junk") ? 4 : !strcmp(m, "arena") ? 6 : -1;
         if (how < 0) { O("bad-op"); break; }
       } else if (th[tid].kind != 3) { O("bad-op"); break; }
       const char* name = tok[first - 2]; long size = atol(tok[first - 1]);
       if (size < 0 || size > 1000000 || strspn(tok[first - 1], "0123456789") != strlen(tok[first - 1])) { O("bad-op"); break; }
       TH nh; memset(&nh, 0, sizeof nh);
       if (!parse_row(&nh, tok + first, nt - first)) { free_type(&nh); O("bad-op"); break; }
-      int bad = 0; for (int i = 0; i < nh.n; i++) if (!resolve_cls(nh.rname[i])) bad = 1;
-      int gcslot = -1;
+      int bad = 0; for (int i = 0; i < nh.n; i++) if (!resolve_cls(nh.rname[i]) || (th[tid].kind == 3 && resolve_cls(nh.rname[i]) == th[tid].type)) bad = 1;
+      int gcslot = -1, aslot = -1;
+      if (how == 6) { aslot = arena_free_slot(); if (aslot < 0) bad = 1; }
       if (how == 2) { for (int g = 0; g < MAXGC; g++) if (!gckeep[g]) { gcslot = g; break; } if (gcslot < 0) bad = 1; }
       if (bad) { free_type(&nh); O("bad-op"); break; }
       TH* h = &th[tid];
       Cell* cells = calloc(nh.n + 1, sizeof(Cell));
       char* tname = strdup(name);
       if (isN) {
+        if (h->kind == 3) { var old = h->type; h->kind = 0; mark_dead(old); }          /* abandoned: as good as deleted */
         free_type(h);
+        nh.aslot = aslot;
         var T = construct_type(how, NULL, &nh, cells, tname, size, &exc);
         if (exc) {
           if (exc != OutOfMemoryError || nh.n <= 256) X("sig=disp-typenew line=%zu what=creating a type with %d instances raised %s", line, nh.n, v_exc_name(exc));
@@ -452,6 +518,9 @@ int main(int argc, char** argv) {
         if (nh.n > 256) X("sig=disp-typenew line=%zu what=a type with %d instances (> CELLO_MAX_INSTANCES) was created", line, nh.n);
         *h = nh; h->kind = 3; h->type = T; h->cells = cells; h->tname = tname; h->how = how; h->tsize = size; h->gcslot = gcslot;
         if (how == 2) gckeep[gcslot] = T;
+        if (how == 6) arena_used[aslot] = 1;
+        if (tid >= tid_hi) tid_hi = tid + 1;
+        mark_alive(T);                 /* an address that held a deleted type object before: its __Name has changed */
         make_obj(h);
       } else {
         var T = h->type;
@@ -470,9 +539,10 @@ int main(int argc, char** argv) {
         free(snap);
         if (nh.n > 256) X("sig=disp-typenew line=%zu what=a type was re-constructed with %d instances (> CELLO_MAX_INSTANCES)", line, nh.n);
         /* the new declaration is in force; the old instance cells stay allocated (a stale cache word must not dangle) */
-        for (int i = 0; i < h->n; i++) { free(h->rname[i]); free(h->rflags[i]); }
-        free(h->rname); free(h->rflags); free(h->tname);
-        h->n = nh.n; h->rname = nh.rname; h->rflags = nh.rflags; h->cells = cells; h->tname = tname; h->tsize = size;
+        if (strcmp(h->tname, tname) != 0) mark_changed(T);
+        for (int i = 0; i < h->n; i++) { free(h->rname[i]); free(h->rflags[i]); if (h->rcname) free(h->rcname[i]); }
+        free(h->rname); free(h->rflags); free(h->rcname); park(h->tname);
+        h->n = nh.n; h->rname = nh.rname; h->rflags = nh.rflags; h->rcname = nh.rcname; h->cells = cells; h->tname = tname; h->tsize = size;
       }
       var T = h->type;
       int ok = record_matches(h, line, 1);
@@ -486,8 +556,11 @@ int main(int argc, char** argv) {
       if (nt != 2) { O("bad-op"); break; }
       int tid = atoi(tok[1]); if (tid < 0 || tid >= MAXT || th[tid].kind != 3) { O("bad-op"); break; }
       TH* h = &th[tid]; var T = h->type;
-      if (h->how == 1) V_TRY(exc, del_root(T)); else if (h->how == 2) { V_TRY(exc, del(T)); gckeep[h->gcslot] = NULL; } else V_TRY(exc, del_raw(T));
+      if (h->how == 1) V_TRY(exc, del_root(T)); else if (h->how == 2) { V_TRY(exc, del(T)); gckeep[h->gcslot] = NULL; }
+      else if (h->how == 6) { V_TRY(exc, destruct(T)); arena_used[h->aslot] = 0; }     /* caller-owned storage: destruct, then the slot is free again */
+      else V_TRY(exc, del_raw(T));
       if (exc) X("sig=disp-del line=%zu what=deleting the run-time type raised %s", line, v_exc_name(exc));
+      h->kind = 0; mark_dead(T);
       free(h->cells); free_type(h);
       O("X %d %s", tid, v_exc_name(exc));
     } break;
@@ -535,19 +608,23 @@ int main(int argc, char** argv) {
       }
       int er, rr; er = row_first_for(h, cls); rr = raw_index(T, raw_scan_name(T, raw_name(cls)));
       if (needk && er >= 0 && (size_t)k >= strlen(h->rflags[er])) { O("bad-op"); break; }   /* a read outside the instance struct: never executed */
+      /* KF-C08-class-memo-stale: a triple memoises the ADDRESS of this class object but does not carry its current name */
+      int stale = 0;
+      for (struct Type* t = raw_first(T); t->name; t++) if (t->cls == cls && strcmp((const char*)t->name, raw_name(cls)) != 0) stale = 1;
+#define SIG(s) (stale ? "KF-C08-class-memo-stale" : (s))
       long inv0 = invoked;
       if (op[0] == 'I' || op[0] == 'i') {
         var got = NULL;
         if (op[0] == 'I') V_PLAIN(exc, got = type_instance(T, cls)); else V_PLAIN(exc, got = instance(self, cls));
         fmt_res(rb, sizeof rb, T, exc, got);
         int gi = exc ? -3 : raw_index(T, got);
-        if (gi != er) X("sig=disp-instance-decl line=%zu what=%s(%s, %s) gave %s, the declaration's first %s triple is %d", line, op[0] == 'I' ? "type_instance" : "instance", raw_name(T), tok[2], rb, raw_name(cls), er);
-        if (gi != rr) X("sig=disp-instance-raw line=%zu what=%s(%s, %s) gave %s, a raw scan of the record finds triple %d", line, op[0] == 'I' ? "type_instance" : "instance", raw_name(T), tok[2], rb, rr);
+        if (gi != er) X("sig=%s line=%zu what=%s(%s, %s) gave %s, the declaration's first %s triple is %d", SIG("disp-instance-decl"), line, op[0] == 'I' ? "type_instance" : "instance", raw_name(T), tok[2], rb, raw_name(cls), er);
+        if (gi != rr) X("sig=%s line=%zu what=%s(%s, %s) gave %s, a raw scan of the record finds triple %d", SIG("disp-instance-raw"), line, op[0] == 'I' ? "type_instance" : "instance", raw_name(T), tok[2], rb, rr);
       } else if (op[0] == 'P' || op[0] == 'p') {
         bool b = false;
         if (op[0] == 'P') V_PLAIN(exc, b = type_implements(T, cls)); else V_PLAIN(exc, b = implements(self, cls));
         if (exc) snprintf(rb, sizeof rb, "%s", v_exc_name(exc)); else snprintf(rb, sizeof rb, "%d", (int)b);
-        if (exc || b != (er >= 0) || b != (rr >= 0)) X("sig=disp-implements line=%zu what=implements(%s, %s) gave %s, declared triple %d raw %d", line, raw_name(T), tok[2], rb, er, rr);
+        if (exc || b != (er >= 0) || b != (rr >= 0)) X("sig=%s line=%zu what=implements(%s, %s) gave %s, declared triple %d raw %d", SIG("disp-implements"), line, raw_name(T), tok[2], rb, er, rr);
       } else if (op[0] == 'M' || op[0] == 'm') {
         var got = NULL;
         if (op[0] == 'M') V_TRY(exc, got = type_method_at_offset(T, cls, k * sizeof(var), "probe"));
@@ -556,9 +633,9 @@ int main(int argc, char** argv) {
         int want_ok = er >= 0 && row_member(h, er, k);
         int raw_ok = rr >= 0 && ((var*)raw_first(T)[rr].inst)[k] != NULL;
         if (want_ok != raw_ok) X("sig=disp-record line=%zu what=member %d of %s.%s: declaration and record disagree", line, k, raw_name(T), tok[2]);
-        if (want_ok) { if (exc || raw_index(T, got) != er) X("sig=disp-method line=%zu what=method lookup %s.%s[%d] gave %s, declared triple %d", line, raw_name(T), tok[2], k, rb, er); }
+        if (want_ok) { if (exc || raw_index(T, got) != er) X("sig=%s line=%zu what=method lookup %s.%s[%d] gave %s, declared triple %d", SIG("disp-method"), line, raw_name(T), tok[2], k, rb, er); }
         else if (exc == FormatError && (T == Terminal || cls == Terminal)) X("sig=KF-C08-terminal-message line=%zu what=method lookup of the absent %s.%s[%d] raised FormatError instead of ClassError: Terminal among the message arguments ends the argument tuple", line, raw_name(T), tok[2], k);
-        else if (exc != ClassError) X("sig=disp-classerror line=%zu what=method lookup of the absent %s.%s[%d] gave %s instead of ClassError", line, raw_name(T), tok[2], k, rb);
+        else if (exc != ClassError) X("sig=%s line=%zu what=method lookup of the absent %s.%s[%d] gave %s instead of ClassError", SIG("disp-classerror"), line, raw_name(T), tok[2], k, rb);
       } else {
         bool b = false;
         if (op[0] == 'Q') V_PLAIN(exc, b = type_implements_method_at_offset(T, cls, k * sizeof(var)));
@@ -566,11 +643,12 @@ int main(int argc, char** argv) {
         if (exc) snprintf(rb, sizeof rb, "%s", v_exc_name(exc)); else snprintf(rb, sizeof rb, "%d", (int)b);
         int want = er >= 0 && row_member(h, er, k);
         int raw_ok = rr >= 0 && ((var*)raw_first(T)[rr].inst)[k] != NULL;
-        if (exc || b != want || b != raw_ok) X("sig=disp-implements-method line=%zu what=implements_method %s.%s[%d] gave %s, declared %d raw %d", line, raw_name(T), tok[2], k, rb, want, raw_ok);
+        if (exc || b != want || b != raw_ok) X("sig=%s line=%zu what=implements_method %s.%s[%d] gave %s, declared %d raw %d", SIG("disp-implements-method"), line, raw_name(T), tok[2], k, rb, want, raw_ok);
       }
       if (invoked != inv0) X("sig=disp-invoked line=%zu what=a member function was called by a lookup", line);
       O("%s %s%s", op, rb, dump(h, 1));
       check_inv(h, line); nlook++;
+#undef SIG
     } break;
     case 'K': {
       if (nt != 3) { O("bad-op"); break; }
@@ -595,6 +673,17 @@ int main(int argc, char** argv) {
       int tid = atoi(tok[2]); if (tid < 0 || tid >= MAXT || !th[tid].kind) { O("bad-op"); break; }
       var cls = resolve_cls(tok[3]); if (!cls) { O("bad-op"); break; }
       TH* h = &th[tid]; if (h->type == Type && strcmp(tok[1], "nontype") == 0) { O("bad-op"); break; }
+      if (strcmp(tok[1], "nullcls") == 0) {
+        /* NULL as the class (misuse, no oracle): Type_Scan's pointer loop matches the first triple whose cls word is NULL */
+        var T = h->type; int cold = 0, nn = raw_count(T);
+        for (struct Type* t = raw_first(T); t->name; t++) if (!t->cls) cold = 1;
+        if (!cold && nn > 0) { O("E nullcls ub ub%s", dump(h, 1)); break; }          /* would read through NULL: never executed */
+        var got = NULL; bool b = false; var e2 = NULL;
+        V_TRY(exc, got = type_instance(T, NULL)); V_TRY(e2, b = type_implements(T, NULL));
+        fmt_res(rb, sizeof rb, T, exc, got);
+        O("E nullcls %s %s%s", rb, e2 ? v_exc_name(e2) : (b ? "1" : "0"), dump(h, 1));
+        nlook++; break;
+      }
       ObjBlk blk; memset(&blk, 0, sizeof blk); header_init(&blk.h, h->type, AllocStatic);
       var got = NULL; bool b = false; var want = ValueError; var e2 = NULL, e3 = NULL, e4 = NULL; long inv0 = invoked;
       if (strcmp(tok[1], "null") == 0) {
